@@ -2,6 +2,7 @@
 C19  Load and production profiles are applied faithfully.
 -/
 import Relsad.Model.Interp
+import Relsad.Model.Increments
 import Relsad.Lemmas.Basic
 import Mathlib.Tactic.Linarith
 import Mathlib.Tactic.FieldSimp
@@ -228,5 +229,33 @@ theorem prod_capped (pp qp : List ℚ) (pmax qmax : ℚ) (i : ℕ) :
 
 /-- Non-vacuity: a 24-value linear profile resampled to 12 increments. -/
 example : (interp [0, 1, 2, 3, 4, 5] 3) = [0, 5/2, 5] := by decide +kernel
+
+/-! ### The preparation of a run -/
+
+/-- **One value per increment**: whatever the period and the step (whole quotient or not), `prepare_system` resamples
+every profile to exactly as many values as the run has increments, and each of them is the resampling of the original
+profile onto that grid - so all of the resampling theorems above (first and last value kept, range kept, constant,
+matching and linear profiles reproduced) hold for the demand applied in every increment of every run. -/
+theorem prepare_one_value_per_increment (period step unitStep : ℚ) (profiles : List (List ℚ)) :
+    let r := prepareSystem period step unitStep profiles
+    (∀ p ∈ r.2, p.length = r.1.length) ∧ r.2.length = profiles.length ∧
+    ∀ k (hk : k < profiles.length), r.2[k]? = some (interp (profiles[k]) r.1.length) := by
+  intro r
+  have hlen : r.1.length = (increments period step).toNat := by
+    show (timeArray _ unitStep).length = _
+    simp [timeArray]
+  refine ⟨?_, by simp [r, prepareSystem], ?_⟩
+  · intro p hp
+    simp only [r, prepareSystem, List.mem_map] at hp
+    obtain ⟨arr, _, rfl⟩ := hp
+    rw [interp_length]; exact hlen.symm
+  · intro k hk
+    simp only [r, prepareSystem, List.getElem?_map, List.getElem?_eq_getElem hk, Option.map_some]
+    congr 2
+    simp [timeArray]
+
+/-- Non-vacuity: 4 h 30 min in 1 h steps is 4 increments; a 5-value ramp is resampled to 4 values 0, 4/3, 8/3, 4 (first and
+last kept), not stretched over 5. -/
+example : prepareSystem (9/2) 1 1 [[0, 1, 2, 3, 4]] = ([1, 2, 3, 4], [[0, 4/3, 8/3, 4]]) := by decide +kernel
 
 end Relsad.C19
